@@ -18,7 +18,9 @@ EXPLANATION = (
     "label assembly: piece letter, disambiguation, capture mark, destination, promotion, suffix in this order, with the "
     "constants x = + # O-O O-O-O, piece letters in discriminant order, castle table and suffix table; (R4) labels are "
     "built from the effect-annotated legal move list of the same board and player. Uniqueness of labels per position "
-    "follows from R1-R3 by the SAN argument given C01/C06 and is NOT separately decided.")
+    "follows from R1-R3 by the SAN argument given C01/C06 and is NOT separately decided."
+    " (R5) the +/# suffix is read from the stored effect of the move: every listed move is classified from the position it produces "
+    "(imports C06.R3).")
 ASSUMPTIONS = [
     "Iterator::any returns true iff the predicate holds for some element",
     "rustc MIR construction, the chessfacts extractor and the format_args! template decoding are faithful",
@@ -528,8 +530,24 @@ def r4_source(ctx):
            nontrivial=False)
 
 
+def r5_suffix_source(ctx):
+    """the +/# suffix is read from the move's stored effect: every listed move must have been classified from the position it
+    produces (= C06.R3, same rule instances)"""
+    from . import c06
+    sub = type(ctx)(ctx.prop, ctx.tier, ctx.facts, ctx.facts_info, ctx.seed)
+    c06.r3_annotation(sub)
+    n = 0
+    for s in sub.samples:
+        n += 1
+        ctx.ob('C13.R5-suffix-source', s['function'], s['instance'], s['ok'], found=s['found'], expected=s['expected'],
+               why='a move whose effect was stamped without looking (or never computed) is labelled without its + or #',
+               nontrivial='floor' not in s['instance'])
+    ctx.floor('C13.R5-suffix-source', 'annotation obligations imported', n, 8)
+
+
 def run(ctx):
     r1_disambiguation(ctx)
     r2_filter(ctx)
     r3_assembly(ctx)
     r4_source(ctx)
+    r5_suffix_source(ctx)
